@@ -3,7 +3,7 @@ import ast
 import copy
 from fractions import Fraction
 import z3
-from .vals import (SV, Opt, Inf, Vec, Mat, Obj, SList, Forall, Func, Builtin, ClassRef, ExcClass, ModuleRef,
+from .vals import (SV, Opt, Inf, Vec, Mat, Obj, SList, Forall, Exists, Func, Builtin, ClassRef, ExcClass, ModuleRef,
                    Unsupported, StrS, fresh, fresh_fun, to_frac, is_num, z3num)
 from .ops import Ops, term, boolterm, mk, is_scalar, is_real, UF
 from . import axioms
@@ -21,7 +21,7 @@ class PyExc(Exception):
     """an exception raised by the interpreted program"""
 
     def __init__(self, cls, args=(), obj=None):
-        super().__init__(cls)
+        super().__init__(f'{cls.name}{args!r}')
         self.cls = cls
         self.eargs = args
         self.obj = obj
@@ -105,6 +105,16 @@ class Path:
             for x in t:
                 self.assume(x)
             return
+        if isinstance(t, Exists):
+            w = fresh('wit', z3.IntSort())
+            self.note_idx(w)
+            self.spec_mode += 1
+            try:
+                b = t.body(SV(w))
+            finally:
+                self.spec_mode -= 1
+            self.pc.append(z3.Implies(boolterm(t.guard), z3.And(term(t.lo) <= w, w < term(t.hi), boolterm(b))))
+            return
         if t is True:
             return
         if t is False:
@@ -151,6 +161,12 @@ class Path:
             g = z3.Implies(rng, boolterm(body))
             self.obligs.append(Oblig(name, list(self.pc), list(self.univ), g, dict(self.idx),
                                      {k: dict(v) for k, v in self.apps.items()}, list(self.sums), kind, where))
+            return
+        elif isinstance(goal, Exists):
+            # hyps /\ guard /\ (forall i: not body(i)) |- False
+            neg = self.freeze(Forall(goal.lo, goal.hi, lambda i: self.ops.lnot(goal.body(i))))
+            self.obligs.append(Oblig(name, list(self.pc) + [boolterm(goal.guard)], list(self.univ) + [neg],
+                                     z3.BoolVal(False), dict(self.idx), {}, list(self.sums), kind, where))
             return
         elif isinstance(goal, (list, tuple)):
             for n, g in enumerate(goal):
